@@ -30,6 +30,9 @@ func journalOp(last string) string {
 // jivaCrash tells whether a worker's log shows a death inside jiva code
 // (panic / Go fatal error / logrus.Fatal) as opposed to a harness problem.
 func jivaCrash(log string) string {
+	if harnessFault(log) {
+		return "" // a defect of the harness itself: inconclusive, never a verdict about jiva
+	}
 	switch {
 	case strings.Contains(log, "fatal error:"):
 		i := strings.Index(log, "fatal error:")
@@ -42,6 +45,26 @@ func jivaCrash(log string) string {
 		return firstLine(log[i:])
 	}
 	return ""
+}
+
+// harnessFault tells whether the first non-runtime frame of the crashing
+// goroutine belongs to the harness rather than to jiva or its dependencies.
+func harnessFault(log string) bool {
+	i := strings.Index(log, "goroutine ")
+	if i < 0 {
+		return false
+	}
+	for _, l := range strings.Split(log[i:], "\n") {
+		l = strings.TrimSpace(l)
+		if l == "" || strings.HasPrefix(l, "goroutine ") || strings.HasPrefix(l, "/") || strings.HasPrefix(l, "runtime.") || strings.HasPrefix(l, "panic(") || strings.HasPrefix(l, "sync.") || strings.HasPrefix(l, "internal/") {
+			if strings.HasPrefix(l, "goroutine ") && !strings.Contains(l, "[running]") && !strings.HasPrefix(log[i:], l) {
+				return false // next goroutine reached
+			}
+			continue
+		}
+		return strings.HasPrefix(l, "verif/harness/") || strings.HasPrefix(l, "main.")
+	}
+	return false
 }
 
 func firstLine(s string) string {
@@ -98,9 +121,9 @@ var plans = map[string]*Plan{
 	"C11": {
 		Level: "exploration",
 		Rule: "histories biased to long chains with user/auto/marked-removed members and a checkpoint at varying positions; every answer of the real cleaner filter (GetDeleteCandidateChain) is checked name by name against the predicate of the property; deletions go through the cleaner route (candidate -> PrepareRemoveDisk -> fold -> RemoveDiffDisk) and the user route (mark removed); " +
-			"full live read and revert-on-copy of every retained user snapshot are compared before/after; non-trivial as C01; distinct = hash of the op-kind sequence",
+			"full live read and revert-on-copy of every retained user snapshot are compared before/after; two workers additionally run the real background cleaner (sync.InternalSnapshotCleaner, 60 s ticker, checkpoint from a stub of GET /v1/checkpoint, coalesce through the real sync-agent router re-executing sfold) for one round (thorough: two) with the first fold made to fail; non-trivial as C01; distinct = hash of the op-kind sequence",
 		Assumptions: rengAssume,
-		Floor:       map[string]int64{"candidate_queries": 50, "removals": 10, "snapshot_images_compared": 50},
+		Floor:       map[string]int64{"candidate_queries": 50, "removals": 10, "snapshot_images_compared": 50, "cleaner_rounds": 1},
 		Jobs: func(tier string) []Job {
 			return jobs("reng", 16, tierN(tier, 6, 150), "", time.Duration(tierN(tier, 10, 80))*time.Minute)
 		},
@@ -234,10 +257,10 @@ var plans = map[string]*Plan{
 		},
 	},
 	"C07": clusterPlan("C07", 6, 2, 16, 9, map[string]int64{"rebuild_cycles": 4, "promotions_checked": 4, "stored_images_compared": 8, "writes_acknowledged": 1000},
-		"clusters of real processes (in-process controller with the real remote factory and REST server; jiva replica + jiva sync-agent processes on their own loopback addresses; RF 2-3, volumes of 4-12 MiB) run kill/stop -> detach -> restart -> rebuild cycles under 1-3 foreground writers at three intensities, with pre-failure histories incl. user snapshots; a third of the rebuilds are interrupted (SIGKILL of the rebuilding replica at the Addreplica / syncFiles / reloadAndVerify log markers, with or without its sync agent) and some lose their source; " +
+		"clusters of real processes (in-process controller with the real remote factory and REST server; jiva replica + jiva sync-agent processes on their own loopback addresses; RF 2-3, volumes of 4-12 MiB) run kill/stop -> detach -> restart -> rebuild cycles under 1-3 foreground writers at three intensities, with pre-failure histories incl. user snapshots; a third of the rebuilds are interrupted (SIGKILL of the rebuilding replica at the Addreplica / syncFiles / reloadAndVerify log markers, with or without its sync agent) and some lose their source; "+
 			"when the replica is first listed RW the writers are paused and (a) the whole volume is read once per reader position through the controller (so the promoted replica serves every chunk through its live block map), (b) extent-exact copies of the promoted and the source directory yield live image and every user snapshot (revert-on-copy): pairwise byte-identical and equal to the model, revision counters and chains equal; the sampled mode timeline must never show two WO replicas nor a restarted replica listed RW before WO; non-trivial = a cycle with acknowledged foreground writes; distinct = configuration + event count"),
 	"C19": clusterPlan("C19", 5, 1, 15, 4, map[string]int64{"clones_completed": 2, "clone_images_compared": 2, "clone_status_samples": 50, "failed_clones_observed": 1},
-		"two real volumes per scenario: a source (RF 1-2) with 2-5 user snapshots and further writes after the cloned snapshot S (S at every chain position across cases), and a new volume whose only replica is started with --type clone; variants (cycled over the cases): none, writes on the source during the copy, SIGKILL of the source replica(s) during the file sync, SIGKILL of the clone during the copy (each followed by a supervisor restart), and a clone of a snapshot that does not exist at the source (must end in an error status and never be served); " +
+		"two real volumes per scenario: a source (RF 1-2) with 2-5 user snapshots and further writes after the cloned snapshot S (S at every chain position across cases), and a new volume whose only replica is started with --type clone; variants (cycled over the cases): none, writes on the source during the copy, SIGKILL of the source replica(s) during the file sync, SIGKILL of the clone during the copy (each followed by a supervisor restart), and a clone of a snapshot that does not exist at the source (must end in an error status and never be served); "+
 			"the clone replica's REST state is sampled every 15 ms (mode RW implies status completed; the new controller holds its lock while polling so the replica side is where intermediate states are visible); at completion the full read through the new controller must equal the model image of S and revert-on-copy of the source directory, the clone's revision counter must equal the one recorded for S, and the clone must accept writes; distinct = configuration + event count"),
 }
 
